@@ -76,7 +76,7 @@ CLAIMS = {
          'resynchronisation probe decode_gob / decode_picture are union transactions whose Ok(None) arm leaves the loop without consuming, only outside '
          'Sorenson mode (is_sorenson() = decoder_options.contains(SORENSON_SPARK_BITSTREAM)); T7/T4 a failed macroblock or block parse consumes nothing; CM exactly one commit(), after the loop, on every Ok path, with no '
          'reader movement between loop exit and commit; and what commit() and read_bits() do to the position (C14 E: commit = drain(0..pos/8); pos %= 8, C14 C: read = peek + skip) '
-         're-run here. PS decode_picture skips 17 + the stuffing count recognize_start_code reports; MC mb_per_line and mb_height are ceil(dim/16) for every u16 dimension (tabulated); EK is_eof_error is true exactly for an I/O error of kind UnexpectedEof (the only source condition that ends a picture early and succeeds; the discriminant named through the toolchain library source); MB / C12.C the macroblock and block layer consume exactly the bits of their syntax elements (VLC tables against Tables 7, 8, 13, 14, 16; Table 9 predicates; decision tables of decode_macroblock / decode_dquant / decode_motion_vector / decode_block). '
+         're-run here. PS decode_picture skips 17 + the stuffing count recognize_start_code reports; MC mb_per_line and mb_height are ceil(dim/16) for every u16 dimension (tabulated); C06 (whole) every header field with its width and presence condition; C14 A, G, H, W the reads deliver the bits they consume; EK is_eof_error is true exactly for an I/O error of kind UnexpectedEof (the only source condition that ends a picture early and succeeds; the discriminant named through the toolchain library source); MB / C12.C the macroblock and block layer consume exactly the bits of their syntax elements (VLC tables against Tables 7, 8, 13, 14, 16; Table 9 predicates; decision tables of decode_macroblock / decode_dquant / decode_motion_vector / decode_block). '
          'Hence on success the position is the end of the last macroblock and padding is never read.',
     technique='loop/dominance/control-dependence rules with structural expression matching over MIR; mod/ref effects', ref='6/C15'),
  'C04': dict(
@@ -85,15 +85,15 @@ CLAIMS = {
          'of the decode closure: last_picture := Some(TR) always, reference_picture := Some(TR) exactly under !is_disposable, := None only for I '
          'pictures and before the Some-assignment, insert(TR, picture) always, TR = the stored header\'s temporal_reference; R3 macroblock syntax '
          'per picture type (found D6, fixed); R4 TR-key aliasing between a disposable picture and the reference (D7: known finding, not repaired); '
-         'R5 who-may-write the three fields + structure of cleanup_buffers; R6 is_disposable folded over all 9 variants, Sorenson code 2; R7 cleanup_buffers() runs after every state update of the call (no update reachable after it); R8 a new decoder has no last / reference picture and an empty store; C03.UC a not-coded macroblock is rejected only in an I picture - P and disposable P pictures are treated alike (the arm executed on the facts for every picture type code). '
+         'R5 who-may-write the three fields + structure of cleanup_buffers; R6 is_disposable folded over all 9 variants, Sorenson code 2; R7 cleanup_buffers() runs after every state update of the call (no update reachable after it); R8 a new decoder has no last / reference picture and an empty store; C03.G/N gather rejects a picture that needs prediction when no reference exists and otherwise reads exactly the planes of that reference; C03.UC a not-coded macroblock is rejected only in an I picture - P and disposable P pictures are treated alike (the arm executed on the facts for every picture type code). '
          'Rejected pictures changing nothing is C05. Pixel-level consequences follow from C03.',
     technique='control-dependence / dominance rules, def-use tracing, mod/ref effects and conditional constant propagation over MIR', ref='6/C04'),
  'C05': dict(
     text='Static, all executions: the structural necessary-and-sufficient shape of atomicity is decided on MIR. T1 decode_next_picture is one reader '
          'transaction; T2/T3 no possibly-Err return is CFG-reachable from any write to *self (direct, or via callee mod/ref summaries) or from commit(); '
          'T4 the three transaction wrappers take the checkpoint before the closure and roll back to it on exactly the failing paths (edge-removal '
-         'reachability); T5 who-may-write bits_read/buffer/source and who-may-call commit; T6 byte-wise refill so a failed fill loses nothing; '
-         'T7 all 23 parser functions are single transactions and all 62 consuming primitive sites sit inside transaction closures. '
+         'reachability); T5 who may write bits_read (skip_bits, rollback, commit), buffer and source, bytes leave the retained buffer only in commit, and who may call commit; T6 byte-wise refill so a failed fill loses nothing; '
+         'C14 A/E who moves the position and by how much, and the forms of rollback / commit / ensure_bits (re-run); T7 all 23 parser functions are single transactions and all 62 consuming primitive sites sit inside transaction closures. '
          'The clause "retry after more data behaves as if all data had been present" is decided only through these conditions (a split inside '
          'macroblock data ends the picture successfully, so that clause is vacuous there).',
     technique='CFG reachability + dominance rules and interprocedural mod/ref effect summaries over MIR', ref='6/C05'),
@@ -102,10 +102,10 @@ CLAIMS = {
          'static argument in reach. Decided are the structural conditions of the mechanism list, each necessary for the reconstruction: Z DEZIGZAG_MAPPING (folded const) = the '
          'zig-zag scan, a bijection; D the macroblock body: block k of macroblock n is decoded with CBP entry k and dequantised into its plane\'s level array at '
          'origin + (8(k&1), 8(k>>1)) (chroma origin/2), origin = ((n mod mbpl)16, (n div mbpl)16), mbpl = ceil(w/16) tabulated over all u16 widths, with the blocks-per-line '
-         'idct_channel later uses with that array, that plane\'s samples and row length; level arrays 4 mbpl mbh / mbpl mbh; inverse_rle\'s block index; H quantizer tracking '
+         'idct_channel later uses with that array, that plane\'s samples and row length; level arrays 4 mbpl mbh / mbpl mbh; inverse_rle\'s block index; C15.M7 the macroblock loop ends when the number of decoded macroblocks reaches the count (stuffing takes no turn); H quantizer tracking '
          '(clamp(q + dquant, 1, 31) once per coded macroblock before its six blocks; no other in-loop definition than GQUANT of a parsed group-of-blocks header); decode_block is told the decoder options, the header of the picture being decoded and this macroblock\'s type; and re-run on this tree: dequantisation form, INTRADC mapping and the zig-zag cursor (C11 A, C, P), the IDCT '
          'clauses (C10 A, B, C, E); '
-         'MB the macroblock / block layer syntax: the VLC tables TCOEF, MCBPC (I-pictures) and CBPY folded from const MIR and compared as code word -> event maps with Tables 16, 7 and 13 of H.263, the Table 9 type predicates folded over all six types, and the decision tables of decode_macroblock, decode_dquant and decode_block (consuming reads with table / width, presence condition and order; every field of the result; the coefficient appended per event; LAST ending the loop; Sorenson v1 escape widths) compared as Boolean functions with the syntax of 5.3 / 5.4; Plane allocation is C13 P.',
+         'C06 (whole) the picture header is parsed as the standard lays it out; MB the macroblock / block layer syntax: the VLC tables TCOEF, MCBPC (I-pictures) and CBPY folded from const MIR and compared as code word -> event maps with Tables 16, 7 and 13 of H.263, the Table 9 type predicates folded over all six types, and the decision tables of decode_macroblock, decode_dquant and decode_block (consuming reads with table / width, presence condition and order; every field of the result; the coefficient appended per event; LAST ending the loop; Sorenson v1 escape widths) compared as Boolean functions with the syntax of 5.3 / 5.4; Plane allocation is C13 P.',
     technique='const-table folding; call-site agreement over loop-index-normalised def-use terms (polynomial normal form, closed forms tabulated over the full u16 domain with Rust integer semantics); dominance for update-before-use; decision-table extraction + semantic DNF comparison for the macroblock / block syntax', ref='6/C02'),
  'C03': dict(
     text='PARTIAL BY DESIGN: end-to-end equality of decoded P pictures with the H.263 reconstruction over all reference pictures is NOT decided statically. Decided are the '
@@ -115,7 +115,7 @@ CLAIMS = {
          'excludes clamping; G the six gather_block call sites (vector k at block offset k, chroma vector = average_sum_of_mvs of the four, Cb<-Cb, Cr<-Cr, row lengths of the '
          'plane read, only for inter macroblocks); N every use of the reference goes through ok_or(..)?; U not-coded macroblock = Inter + zero vectors + no residual, early end '
          'filled with Inter / zero vectors, gather after the macroblock loop and before the IDCT; UC a not-coded macroblock is an error exactly in I pictures among I / P / disposable P; and, re-run on this tree: vector reconstruction, chroma rounding, candidate '
-         'table, median, zero neighbours, mv_decode pairing and call-site wiring (C12 A, B, D, E, F, M, W) and the residual-add form of every IDCT arm (C10 C); MB the macroblock / block layer syntax of an inter macroblock: COD, MCBPC against Table 8, '
+         'table, median, zero neighbours, mv_decode pairing and call-site wiring (C12 A, B, D, E, F, M, W) and the residual-add form of every IDCT arm (C10 C), the basis table, 1-D transform and sparse-shape classification (C10 A, B, E), dequantisation and zig-zag cursor (C11 A, P), the decode_block / inverse_rle / idct_channel call-site agreement and quantizer tracking (C02 D, H), the picture header tables (C06, whole); MB the macroblock / block layer syntax of an inter macroblock: COD, MCBPC against Table 8, '
          'CBPY against Table 13 and complemented for inter types, DQUANT / MVD / MVD2-4 presence by the Table 9 predicates (folded over all types), MVD x then y, TCOEF against Table 16 and the escape forms, as decision tables compared with the syntax of 5.3 / 5.4.',
     technique='loop-index-normalised def-use terms vs written-out forms; path conditions (bit-slice DNF) for form selection; folding over finite domains; control-dependence guards; dominance / reachability for order', ref='6/C03'),
  'C06': dict(
@@ -135,7 +135,7 @@ CLAIMS = {
          'changes decoded samples: A BASIS_TABLE (folded from const MIR) against c(u)cos((2i+1)u pi/16) within 4e-6 at all 64 entries; B idct_1d is the sum over u of '
          'input[u]*BASIS_TABLE[u][i] from zero, and every return is dominated by the loop over all 8 outputs (the scratch row is reused across blocks); C all four arms of idct_channel store clamp(clamp(trunc(s*v + 0.5 signum v), -256, 255) + old, 0, 255) at sample '
          '(8bx+x, 8by+y) with x,y cropped to the plane, s = 1/4, B00/4, 1/8; Full = rows, transposition, columns; Zero stores nothing (all-zero -> unchanged); '
-         'E the sparse shortcuts are selected only for blocks of their shape (sticky flags cleared exactly on a non-zero coefficient off the row / column) with the right payloads.',
+         'E the sparse shortcuts are selected only for blocks of their shape (sticky flags cleared exactly on a non-zero coefficient off the row / column) with the right payloads; C02.D the transform is handed the level arrays, blocks per line, planes and row lengths that inverse_rle filled.',
     technique='const-table folding against a formula; loop-index-normalised def-use expressions compared with written-out forms; control-dependence guards of sticky flags', ref='6/C10'),
  'C08': dict(
     text='PARTIAL BY DESIGN: the "never panics for any size" clause needs relational reasoning about slice bounds (row*width <= len) that the interval reading cannot do; '
@@ -150,7 +150,7 @@ CLAIMS = {
          'ceil(w/2.0) is tabulated exactly over the whole u16 domain and equals div_ceil(w, 2); chroma_samples_per_row = cw; G the nine accessors return exactly those '
          'fields as slices; R the plane vectors are private and the only use of &mut Vec in the module is deref_mut (a slice cannot change length); Q yuv420_to_rgba cuts chroma '
          'rows at (row/2)*CW with CW a function equal to ceil(width/2) on the whole domain, loops over len(y)/width rows, returns vec![0; 4*len(y)] (exactly width*height pixels), '
-         'empty shortcut before any division; C04 R1/R2/R7 after a successful call get_last_picture() returns the picture just decoded (accessor key, last_picture := its key, inserted under it, clean-up after the updates); C06.S every format that has a size has width, height >= 1; J2/S the strength table has 32 entries = Table J.2 with values 1..12 for quantizers 1..31 and Picture.quantizer is a 5-bit read. '
+         'empty shortcut before any division; C10.C every idct_channel arm writes only inside the plane (cropped extents, the transposed dense arm cropped the right way round); C04 R1/R2/R7 after a successful call get_last_picture() returns the picture just decoded (accessor key, last_picture := its key, inserted under it, clean-up after the updates); C06.S every format that has a size has width, height >= 1; J2/S the strength table has 32 entries = Table J.2 with values 1..12 for quantizers 1..31 and Picture.quantizer is a 5-bit read. '
          'deblock() accepting every such plane: C16\'s mechanism rules, panic inventory and termination re-run here (C16.*). NOT decided: panic-freedom of the slice arithmetic inside yuv420_to_rgba (relational; see C08).',
     technique='closed-form agreement between producer and consumer (terms tabulated over the full finite domain); visibility / who-may-resize rule; const-table folding', ref='6/C13'),
  'C17': dict(
